@@ -163,13 +163,16 @@ Precond == Precondition(X, P)
 \* One invariant (the occurrence set is computed once per crystal):
 \*  - the design finds exactly the occurrences of the definition (C02 at design level)
 \*  - every planted copy is an occurrence (the definition is not too strict)
-\*  - Gram congruence is rotation congruence on these crystals (the definition is not too lax)
+\*  - on planted copies Gram congruence is witnessed by a cube rotation (the definition is not too lax)
 FindInv ==
   LET D == DefTuples(X, P)
       G == Groups(D)
   IN /\ (Precond /\ ~NegativeControl) => AlgoGroups(X, P) = G
      /\ Precond => planted \subseteq G
-     /\ \A cs \in D : RotCongruent(PatPos(P), TuplePos(cs))
+     \* sanity of the definition on the copies that were planted by cube rotations (an *accidental* occurrence formed
+     \* by atoms of different copies may be related to the pattern by a proper rotation outside the cube group -
+     \* TLC found one: atoms of a P4ax copy and of its mirror decoy - so nothing is claimed about those)
+     /\ \A cs \in D : GroupOf(cs) \in planted => RotCongruent(PatPos(P), TuplePos(cs))
 \* negative control: claims the same for a cell that is too narrow; TLC must find a counterexample
 NarrowBreaks == AlgoGroups(X, P) = DefGroups(X, P)
 
